@@ -52,6 +52,8 @@ def check(model: Model, rep: Report, tier: str):
         p5(model, rep)
     with rep.isolated():
         p6(model, rep)
+    with rep.isolated():
+        p10(model, rep)
     from .c03 import h6
     from ..resolve import CallGraph
     with rep.isolated():
@@ -64,6 +66,45 @@ def check(model: Model, rep: Report, tier: str):
         f3(model, rep, "C09.P9")
     rep.rules_text["C09.P9"] = ("the multi-round constructor builds every round as construct(...) -> apply_modifiers() -> flatten(): unrolling comes first, because flatten() "
                                 "drops the repetition counts of nested blocks and the round would run fewer cycles than requested (= C11.F3)")
+
+
+def p10(model: Model, rep: Report):
+    """The requested initial states reach the preparation builder unfiltered."""
+    rep.rule("C09.P10", "construct_repetition_code_circuit / _simplified hand the caller's initial_state container to the preparation builder as it is (the parameter "
+                        "itself on every path): a filtered or rebuilt container drops requested states, which are then never prepared")
+    from ..sym import subterms as _sub
+    n = 0
+    for fname in ("construct_repetition_code_circuit", "construct_repetition_code_circuit_simplified"):
+        f = model.function("repetition_code.circuit_constructors", fname)
+        if "initial_state" not in f.param_names:
+            raise AnalysisError(f"{fname}: parameter initial_state vanished")
+        init = sym("initial_state")
+        ev = Evaluator(model, inline_methods=False)
+        ps = PathEnumerator(ev).function_paths(f)
+        seen = set()
+        for p in ps:
+            if p.exit != "return":
+                continue
+            calls = []
+            for e in p.events:
+                if e.term is not None:
+                    calls += [c for c in _sub(e.term, lambda y: y[0] == "call" and isinstance(y[1], tuple) and y[1][0] == "fn" and "get_circuit_initialize" in y[1][1])]
+            for c in calls:
+                v = dict(c[3]).get("initial_state", c[2][1] if len(c[2]) > 1 else None)
+                if v is None or repr(v) in seen:
+                    continue
+                seen.add(repr(v))
+                n += 1
+                from .common import devar
+                dv = devar(v)
+                ok = dv == init
+                filtered = bool(_sub(dv, lambda y: y[0] in ("dictcomp", "comp") and any(cond for _, cond in (y[3] if y[0] == "comp" else y[3])))) if not ok else False
+                if not ok and not filtered and not _sub(dv, lambda y: y[0] == "new" and y[1] == "InitialStateContainer") and not (dv[0] == "call"):
+                    raise AnalysisError(f"{fname}: initial_state handed to the preparation builder is {show(dv)[:100]} (not the parameter; shape not recognised)")
+                rep.check(ok, "C09.P10", f"{fname}[initial_state]", f.loc, found=show(dv)[:140], required="the caller's initial_state",
+                          what="the preparation builder receives a rebuilt / filtered container instead of the requested initial states: entries it leaves out are silently not prepared",
+                          detail="initial-state")
+    rep.floor("initial_state hand-overs in the single-experiment constructors", n, 2)
 
 
 def qec_paths(model: Model):
